@@ -224,5 +224,7 @@ fn main() {
         }
             }));
         if r.is_err() { writeln!(out, "PANIC|-").unwrap(); }
+        // one answer per operation reaches the pipe at once: if a later call never returns, the answers given so far survive
+        { use std::io::Write; let _ = out.flush(); }
     }
 }
